@@ -30,10 +30,17 @@ Print Assumptions C18_partial_involved_listed.
 (* metadata written on an unknown account creates it with first usage = insertion date = now *)
 Theorem C18_partial_metadata_creates : forall hist_on now accs hist a md,
   find_account accs a = None ->
-  fst (upsert_account hist_on now (accs, hist) a md None None None) =
+  fst (upsert_account hist_on now (accs, hist) a md (Some now) None None) =
   accs ++ [{| a_addr := a; a_meta := md; a_first := now; a_ins := now; a_upd := now |}].
 Proof. intros hist_on now accs hist a md F. unfold upsert_account. rewrite F. reflexivity. Qed.
 Print Assumptions C18_partial_metadata_creates.
+
+(* metadata written on a known account counts as a usage at the time of the write: first usage <= now afterwards (since the
+   repair of UpsertAccounts: a batch row without first_usage stands for transaction_date(), as on insertion) *)
+Theorem C18_partial_metadata_lowers : forall hist_on now accs hist a md,
+  exists y, find_account (fst (upsert_account hist_on now (accs, hist) a md (Some now) None None)) a = Some y /\ a_first y <= now.
+Proof. intros. apply upsert_account_listed. Qed.
+Print Assumptions C18_partial_metadata_lowers.
 
 Local Open Scope string_scope.
 (* refutation of the full statement: bob is credited by a transaction dated 50 (future-dated), which is reverted at 20
